@@ -19,13 +19,14 @@ RULE = ('Complete enumeration of the finite domains, dumped from the real tables
         'definition (vlib/model.py).  Derived laws (commutativity, associativity, idempotence, monotonicity of repeated union; '
         'complement is an involution that fixes S, W, N, -) are checked on the dumped values.  The same dump is repeated under '
         'Miri (undefined-behaviour interpreter).  Uses through the command line: one k-mer observed with every non-empty '
-        'subset of middle bases in every order (64 orderings) through `ska build`, and `ska map` through every code on the '
+        'subset of middle bases in every order (64 orderings) through `ska build` (also with self-complementary arms, where the stored code is that of the set closed under complement), and `ska map` (plain, --ambig-mask, --repeat-mask; 64- and 128-bit k) through every code on the '
         'reverse strand (alone, and again on the other strand further along the reference), and `ska distance --allow-ambiguous` on tables holding every code in 2..7 samples, compared with 1 - sum p_a p_b for uniform weights (N without weight; rows constant over all samples left out).  Non-trivial: a table cell / function value whose expected value is not the default; distinct = cell.')
 ASSUMPTIONS = ['for U/u the complement table may give A or - (the statement does not cover it)',
                'IUPAC letter sets as in vlib/model.py SETS']
 REQUIRED = {t: ['cells:IUPAC', 'cells:RC', 'cells:AMBIG', 'cells:PROB', 'laws_checked', 'orderings_through_build',
                 'codes_through_map_reverse_strand', 'codes_through_map_inverted_repeat', 'miri_dump_identical',
-                'weights_through_distance', 'dist_pairs_with_identical_ambiguous_codes'] for t in ('quick', 'thorough')}
+                'weights_through_distance', 'dist_pairs_with_identical_ambiguous_codes', 'orderings_with_self_complementary_arms',
+                'mask_flags_through_map_128bit', 'mask_flags_through_map_64bit'] for t in ('quick', 'thorough')}
 LETTERS = [c for c in M.CODES] + [c.lower() for c in M.CODES]
 
 
@@ -39,6 +40,8 @@ def plan(tier, seed, rng, scale):
     for k in ks:
         for rcmode in (True, False):
             descs.append({'kind': 'orderings', 'k': k, 'rc': rcmode, 'seed': rng.getrandbits(32)})
+            if rcmode:
+                descs.append({'kind': 'orderings', 'k': k, 'rc': True, 'selfcomp': True, 'seed': rng.getrandbits(32)})
             descs.append({'kind': 'maprc', 'k': k, 'rc': rcmode, 'seed': rng.getrandbits(32)})
     for i in range(150 if tier == 'quick' else 3000):
         descs.append({'kind': 'dist', 'k': rng.choice(ks), 'rc': True, 'ns': rng.randint(2, 7), 'seed': rng.getrandbits(32)})
@@ -228,6 +231,11 @@ def run_case(desc, ctx):
     if kind == 'orderings':
         # one k-mer observed with every non-empty subset of middles, in every order, with multiplicities
         arms = G.canonical_arms(rng, k, rcmode)
+        selfcomp = rcmode and desc.get('selfcomp', False)
+        if selfcomp:
+            # arms that are their own reverse complement: every sighting of a middle base is also one of its complement
+            a_ = G.rseq(rng, h)
+            arms = a_ + M.rc(a_)
         for r in range(1, 5):
             for subset in itertools.combinations('ACGT', r):
                 for order in itertools.permutations(subset):
@@ -247,7 +255,9 @@ def run_case(desc, ctx):
                         res.violate('C15:build-failed', 'build failed: %s' % p.stderr[-150:], {'records': recs})
                         continue
                     hdr, T = G.nk(ctx, ctx.path('o.skf'))
-                    want = {arms: [M.code_of(subset)]}
+                    want = {arms: [M.code_of(set(subset) | {M.rc(b_) for b_ in subset}) if selfcomp else M.code_of(subset)]}
+                    if selfcomp:
+                        res.count('orderings_with_self_complementary_arms')
                     if T != want:
                         res.violate('C15:order:%s' % ''.join(order),
                                     'k=%d rc=%s: middles seen in order %s give %s, expected %s' % (k, rcmode, seq, T, want), {'records': recs})
@@ -313,20 +323,32 @@ def run_case(desc, ctx):
             inverted = rcmode and rng.random() < 0.6
             ctx.write('ref.fa', '>c\n%s\n' % (w + 'N' + M.rc(w) if inverted else w))
             p = G.ska_build(ctx, ctx.path('o'), [ctx.path('s.fa')], k, rcmode)
-            m_ = ctx.sh(ctx.ska, 'map', ctx.path('ref.fa'), ctx.path('o.skf'))
+            # mask flags at their point of use: --ambig-mask turns exactly the ambiguous symbols into N, --repeat-mask the
+            # positions around a reference k-mer that occurs twice (both strands count as one k-mer when strands are merged)
+            flag = [None, '--ambig-mask', '--repeat-mask'][(M.CODES.index(code) + desc['seed']) % 3]
+            m_ = ctx.sh(ctx.ska, 'map', ctx.path('ref.fa'), ctx.path('o.skf'), *([flag] if flag else []))
             res.evals += 1
             if p.returncode != 0 or m_.returncode != 0:
                 res.violate('C15:map-failed', 'map failed: %s' % m_.stderr[-150:], {'ref': w, 'records': recs})
                 continue
             _n, seqs = M.parse_fasta(m_.stdout)
-            want = w[:h] + (M.comp_code(code) if flip else code) + w[h + 1:]
+
+            def shown(c):
+                return 'N' if flag == '--ambig-mask' and M.is_ambig(c) else c
+            want = w[:h] + shown(M.comp_code(code) if flip else code) + w[h + 1:]
             if inverted:
                 w2 = M.rc(w)
-                want += '-' + w2[:h] + (code if flip else M.comp_code(code)) + w2[h + 1:]
+                want += '-' + w2[:h] + shown(code if flip else M.comp_code(code)) + w2[h + 1:]
                 res.count('codes_through_map_inverted_repeat')
+                if flag == '--repeat-mask':
+                    want = 'N' * k + '-' + 'N' * k
+            if flag and k > 31:
+                res.count('mask_flags_through_map_128bit')
+            if flag and k <= 31:
+                res.count('mask_flags_through_map_64bit')
             if seqs != [want]:
-                res.violate('C15:map:%s' % code, 'k=%d rc=%s: code %s on the %s strand maps to %s, expected %s'
-                            % (k, rcmode, code, 'reverse' if flip else 'forward', seqs, want), {'ref': w, 'records': recs})
+                res.violate('C15:map:%s' % code, 'k=%d rc=%s %s: code %s on the %s strand maps to %s, expected %s'
+                            % (k, rcmode, flag or '', code, 'reverse' if flip else 'forward', seqs, want), {'ref': w, 'records': recs})
             else:
                 if flip:
                     res.count('codes_through_map_reverse_strand')
